@@ -226,4 +226,58 @@ theorem dispatch_resolve_error (routes : List Route) (P : Params σ) (w : World 
   unfold dispatch protectedRegion
   simp [h]
 
+theorem guardRefusal_inert (P : Params σ) (g : Guard) (w : World σ) (resp : Resp) (e : Option Exn)
+    (h : guardRefusal P g w = some (resp, e)) :
+    resp.pairingRemoved = false ∧ resp.task = false ∧ resp.sharedKey = false ∧ resp.pairingChanged = false := by
+  cases g with
+  | none => simp [guardRefusal] at h
+  | raiseUnpriv =>
+    simp only [guardRefusal] at h
+    split at h
+    · cases h
+    · cases h; simp
+  | send401 =>
+    simp only [guardRefusal] at h
+    split at h
+    · cases h
+    · cases h; simp
+  | adminAuthErr a seq =>
+    simp only [guardRefusal] at h
+    split at h
+    · cases h; simp
+    · split at h
+      · cases h; simp [authErrResp]
+      · cases h
+
+theorem finishResp_removed (resp : Resp) (e : Option Exn) :
+    (finishResp resp e).pairingRemoved = resp.pairingRemoved := by
+  cases e with
+  | none => rfl
+  | some e => cases e <;> rfl
+
+theorem dispatch_fails_early_inert (routes : List Route) (P : Params σ) (w : World σ) (req : Option Req)
+    (body : Bytes) (h : FailsEarly routes P w req body) :
+    (dispatch routes P w req body).2.pairingRemoved = false ∧ (dispatch routes P w req body).2.task = false ∧
+    (dispatch routes P w req body).2.sharedKey = false ∧ (dispatch routes P w req body).2.pairingChanged = false := by
+  unfold FailsEarly at h
+  unfold dispatch protectedRegion
+  cases hres : resolve routes P req body with
+  | error e =>
+    simp only []
+    have := finishResp_flags {} (some e)
+    have h2 := finishResp_removed {} (some e)
+    simp_all
+  | ok rc =>
+    obtain ⟨r, ctx⟩ := rc
+    simp only [hres] at h
+    cases hg : guardRefusal P r.guard w with
+    | none => simp [hg] at h
+    | some x =>
+      obtain ⟨resp, e⟩ := x
+      have hi := guardRefusal_inert P r.guard w resp e hg
+      have hf := finishResp_flags resp e
+      have h2 := finishResp_removed resp e
+      simp only [runHandler, hg]
+      simp_all
+
 end Hap.Http
